@@ -515,7 +515,7 @@ def run(ctx: common.Ctx):
                     continue
                 if ctx.thorough and name in ("materialize_with_mpms", "deduplicate", "eliminate_dead_code") \
                         and len(codegen_jobs) < 400:
-                    codegen_jobs.append(cexec.Job(tag=f"t{i}:{name}", expr=cur, runs=[inp]))
+                    codegen_jobs.append(cexec.Job(tag=f"t{i}:{name}", expr=cur, runs=[inp], want_source=True))
                     codegen_meta.append((i, name, ref, p))
         if isinstance(i, int) and i % 20 == 0:
             ctx.sample({"batch": "transformations", "program": i, "ops": sorted(set(p.ops))[:10],
@@ -564,15 +564,21 @@ def run(ctx: common.Ctx):
     ctx.note_batch("lean-heap-checkers-on-real-results", len(lean_q), ldis, exhaustive=False, **stats)
     if codegen_jobs:
         res = cexec.run_jobs(ctx, codegen_jobs)
-        cdis = 0
+        cdis = printer = 0
         for (i, name, ref, p), r in zip(codegen_meta, res):
             if r.error:
                 continue
             if any(k in r.outputs[0] and not close(r.outputs[0][k], ref[k], single=p.uses_single()) for k in ref):
+                from .c01 import _c_bitwise_next_to_comparison
+                if _c_bitwise_next_to_comparison(getattr(r, "source", None) or ""):
+                    # loopy's C printer (recorded under C01 / C07 / C15): not something the transformation did
+                    printer += 1
+                    continue
                 cdis += 1
                 ctx.violation(f"transform:{name}:generated-code-value-changed", f"program {i}",
                               {"program_index": i, "seed": ctx.seed + 500})
-        ctx.note_batch("generated-code-of-transformed-graphs", len(codegen_jobs), cdis, exhaustive=False)
+        ctx.note_batch("generated-code-of-transformed-graphs", len(codegen_jobs), cdis, exhaustive=False,
+                       skipped_known_c_printer_pattern=printer)
     ctx.broken = sorted(set(ctx.broken))[:50]
 
 
